@@ -359,7 +359,8 @@ def _shard_single(task: Tuple[int, int, str]) -> Report:
 def _shard_other(task: Tuple[int, int, str, int]) -> Report:
     shard, seed, tier, count = task
     rep = Report()
-    encs, filtered = G.sample_valid_encodings(mix32(seed, shard, 0xB05), count)
+    k = (shard * 7) % len(G.PRES)  # rotate the prefix order per shard so that every prefix class is reached
+    encs, filtered = G.sample_valid_encodings(mix32(seed, shard, 0xB05), count, pres=G.PRES[k:] + G.PRES[:k])
     rep.extra["sampler_redraws"] = rep.extra.get("sampler_redraws", 0) + filtered
     for j, (pre, code) in enumerate(encs):
         st = S.Stream(seed, 0xC05B, shard, j)
@@ -389,7 +390,8 @@ def _shard_other(task: Tuple[int, int, str, int]) -> Report:
         op = code[1] if pre is not None else code[0]
         b2 = code[2] if pre is not None and len(code) > 2 else (code[1] if pre is None and len(code) > 1 else 0)
         key = f"o:{pre}:{op:02X}:{b2:02X}:{res.get('cls')}"
-        _record_single(rep, case, res, key, ["kind:other", f"pre:{'yes' if pre else 'no'}"] + labels, 3001)
+        _record_single(rep, case, res, key, ["kind:other", f"pre:{'yes' if pre else 'no'}",
+                                             f"other-pre:{'none' if pre is None else format(pre, '02X')}"] + labels, 3001)
     return rep
 
 
